@@ -33,6 +33,10 @@ pub fn all() -> Vec<Regression> {
         Regression { name: "D10-rk4-stats", property: "C18", what: "RK4: nfev counts every RHS call and naccpt every step", f: d10 },
         Regression { name: "D11-bdf-hinit-count", property: "C18", what: "BDF: nfev counts the evaluation made by the automatic initial step", f: d11 },
         Regression { name: "D14-rk4-max-step", property: "C11", what: "RK4 must not take steps longer than max_step", f: d14 },
+        Regression { name: "D15-sub-1e-12-steps-dropped", property: "C18", what: "accepted steps shorter than 1e-12 must still be reported (naccpt = reported intervals; span 1e-12 returns more than [x0])", f: d15 },
+        Regression { name: "D18-hinit-probe-beyond-xend", property: "C03", what: "automatic initial step with max_step > span must not evaluate the RHS beyond xend", f: d18 },
+        Regression { name: "D19-terminal-event-duplicates-sample", property: "C03", what: "terminal event on a step boundary (RK4 grid) must not repeat the previous sample time", f: d19 },
+        Regression { name: "D20-landing-within-rounding", property: "C03", what: "Radau/BDF with max_step dividing the interval must end with Success, not StepSizeTooSmall", f: d20 },
         Regression { name: "D16-rk4-dense-order", property: "C07", what: "RK4 cubic Hermite dense output must be O(h^4) inside a step", f: d16 },
     ]
 }
@@ -371,6 +375,68 @@ fn d16() -> Result<(), String> {
     let o2 = (errs[1] / errs[2]).log2();
     if o1.min(o2) < 3.5 {
         return Err(format!("observed interior order {:.2}/{:.2} (errors {:e} {:e} {:e}), expected about 4", o1, o2, errs[0], errs[1], errs[2]));
+    }
+    Ok(())
+}
+
+fn d15() -> Result<(), String> {
+    let p = base(Base::Harmonic(2.0));
+    let mut c = Cfg::new(Method::BDF, 0.0, 2.0, &p.y0).tol(1e-9, 1e-11);
+    c.user_jac = true;
+    let r = run(&p, &c);
+    let s = sol_of(&r)?;
+    if s.naccpt != s.t.len() - 1 {
+        return Err(format!("naccpt={} but {} reported intervals", s.naccpt, s.t.len() - 1));
+    }
+    let p = base(Base::Decay(-1.0));
+    let c = Cfg::new(Method::DOPRI5, 0.0, 1e-12, &p.y0);
+    let r = run(&p, &c);
+    let s = sol_of(&r)?;
+    if s.status == Status::Success && s.t.len() < 2 {
+        return Err(format!("span 1e-12: Success with t={:?}", s.t));
+    }
+    Ok(())
+}
+
+fn d18() -> Result<(), String> {
+    let p = base(Base::Decay(-1.0));
+    for m in [Method::RK23, Method::DOPRI5, Method::DOP853, Method::BDF] {
+        let mut c = Cfg::new(m, 0.0, 1e-3, &p.y0);
+        c.max_step = Some(f64::INFINITY);
+        let r = run(&p, &c);
+        sol_of(&r)?;
+        if r.st.tmax > 1e-3 * (1.0 + 1e-12) {
+            return Err(format!("{}: RHS evaluated at t={:e}, xend=1e-3", mname(m), r.st.tmax));
+        }
+    }
+    Ok(())
+}
+
+fn d19() -> Result<(), String> {
+    let p = base(Base::Decay(-1.0));
+    let mut c = Cfg::new(Method::RK4, 0.0, 1.0, &p.y0);
+    c.events = vec![EventSpec::new(EvKind::T(0.61)).term(1)];
+    let r = run(&p, &c);
+    let s = sol_of(&r)?;
+    for w in s.t.windows(2) {
+        if !(w[1] > w[0]) {
+            return Err(format!("t not strictly increasing near the event: {:?}", &s.t[s.t.len().saturating_sub(3)..]));
+        }
+    }
+    Ok(())
+}
+
+fn d20() -> Result<(), String> {
+    let p = base(Base::Decay(-1.0));
+    for m in [Method::RADAU, Method::BDF] {
+        let mut c = Cfg::new(m, 1.0, 0.999, &p.y0).tol(1e-3, 1e-6);
+        c.first_step = Some(-1e-3);
+        c.max_step = Some(2.5e-4);
+        let r = run(&p, &c);
+        let s = sol_of(&r)?;
+        if s.status != Status::Success {
+            return Err(format!("{}: status {:?} with t={:?}", mname(m), s.status, s.t));
+        }
     }
     Ok(())
 }
